@@ -109,7 +109,17 @@ func ruleSegmentsEmitOrFail(c *Ctx, rule string) {
 		n := 0
 		for _, f := range builderCluster(c, root) {
 			for _, l := range rangeLoops(f) {
-				// only loops that emit
+				// only loops that emit; a write into the scratch builder a callee declares for itself (the segment
+				// constructor assembling a regexp source) is not an emission into the URL
+				isBufWrite := func(in ssa.Instruction) (*ssa.CallCommon, bool) {
+					call, ok := isBufWrite(in)
+					if ok && len(call.Args) > 0 {
+						if al, isLocal := call.Args[0].(*ssa.Alloc); isLocal && al.Parent() != f {
+							return nil, false
+						}
+					}
+					return call, ok
+				}
 				emits := false
 				for _, e := range l.elems {
 					if (&an.Query{Deep: deepDefault, Target: func(in ssa.Instruction) bool { _, ok := isBufWrite(in); return ok }, Block: func(in ssa.Instruction) bool { return in == e }}).Search(an.After(e)) != nil {
